@@ -30,6 +30,7 @@ package main
 import (
 	"encoding/json"
 	"fmt"
+	"math/big"
 	"os"
 	"path/filepath"
 	"regexp"
@@ -629,7 +630,7 @@ func oracleValue(res *hx.Result, tc tcase, t *lt, vars []varDecl, out string) (c
 		for _, v := range vars {
 			vs[v.Name] = v.V.render()
 		}
-		res.Fail(cls, map[string]any{"template": tc.Template, "vars": vs},
+		res.Fail(cls, map[string]any{"template": tc.Template, "vars": vs, "want": want.render(), "class": cls},
 			fmt.Sprintf("legacy %q denotes %q; migrated %q evaluates to %q (evaluation error %v)", tc.Template, want.render(), out, got, evErr))
 	}
 	return true
@@ -707,12 +708,32 @@ func main() {
 		}
 		if b, err := os.ReadFile(o.Replay); err == nil && json.Unmarshal(b, &rj) == nil && rj.FailingInput.Input != nil {
 			var in struct {
-				Template string  `json:"template"`
-				Options  options `json:"options"`
+				Template string            `json:"template"`
+				Options  options           `json:"options"`
+				Vars     map[string]string `json:"vars"`
+				Want     *string           `json:"want"`
+				Class    string            `json:"class"`
 			}
 			if json.Unmarshal(rj.FailingInput.Input, &in) == nil && in.Template != "" {
 				corpus = []string{in.Template}
 				res.Notes = append(res.Notes, "replaying "+in.Template)
+				if in.Want != nil {
+					// a value-oracle failure: re-evaluate the migrated template on the recorded operands
+					var vars []varDecl
+					for _, k := range hx.SortedKeys(in.Vars) {
+						v := rvText(in.Vars[k])
+						if n, ok := new(big.Int).SetString(in.Vars[k], 10); ok {
+							v = rval{K: "num", N: n}
+						}
+						vars = append(vars, varDecl{Name: k, V: v})
+					}
+					res.OracleChecks++
+					out, hasErr, _ := migrateReal(in.Template, in.Options)
+					got, evErr := evalMigrated(out, vars)
+					if hasErr || evErr || got != *in.Want {
+						res.Fail(in.Class, rj.FailingInput.Input, fmt.Sprintf("legacy %q denotes %q; migrated %q evaluates to %q (evaluation error %v)", in.Template, *in.Want, out, got, evErr))
+					}
+				}
 			}
 		}
 	}
@@ -770,7 +791,7 @@ func main() {
 
 	if o.Replay == "" {
 		// gen
-		n := o.Count(800, 30000)
+		n := o.Count(600, 12000)
 		rg := r.Fork("gen")
 		for i := 0; i < n; i++ {
 			g := &genCtx{r: rg, clean: rg.Chance(2, 3)}
@@ -819,7 +840,7 @@ func main() {
 		}
 
 		// typed
-		n = o.Count(1500, 60000)
+		n = o.Count(1200, 60000)
 		rt := r.Fork("typed")
 		compared := 0
 		for i := 0; i < n; i++ {
@@ -833,7 +854,11 @@ func main() {
 			tc := tcase{Template: "@(" + t.text(sp) + ")"}
 			var out string
 			var hasErr bool
-			if i%3 == 0 {
+			share := 3 // every third typed case also goes to the correspondence files (thorough: every tenth)
+			if o.Tier == "thorough" {
+				share = 10
+			}
+			if i%share == 0 {
 				out, hasErr = runCase(tc, []*lt{t}, true, "typed")
 			} else {
 				// (not every typed case goes to the correspondence files: the model evaluation dominates the run time)
@@ -862,7 +887,7 @@ func main() {
 		// text starting with abs( max( min( mod( round( ... ): the only case that stays an infix + or -, so the only
 		// place where the right operand needs one level more than the left one.  SUM(ABS(x), y) migrates to
 		// `abs(x) + y`, which is inferred as a number although its outermost operator is +.
-		n = o.Count(150, 5000)
+		n = o.Count(120, 3000)
 		rn := r.Fork("numnum")
 		numCall := func(vars []varDecl) *lt {
 			f := hx.Pick(rn, []string{"ABS", "MAX", "MIN", "ROUND", "ROUNDUP", "ROUNDDOWN", "INT", "Abs", "max"})
